@@ -744,11 +744,10 @@ func CanonicalIsomorphAllocated(n, m int, neighbours [][]int, op *CanonicalOrder
 
 				choices[len(choices)-1]--
 				choicePosition := choices[len(choices)-1]
-				choiceElement := op.order[choicePosition]
 				//Can we step there?
 				//Heuristic 2
 				if count > 0 && ints.HasPrefix(firstLeafPath, path[:len(path)-1]) {
-					if firstLeafOrbits[choiceElement] >= 0 {
+					if equivalentToLaterInCell(op, firstLeafOrbits, choicePosition, space) {
 						skipDeage = true
 						continue jLoop
 					}
@@ -758,7 +757,7 @@ func CanonicalIsomorphAllocated(n, m int, neighbours [][]int, op *CanonicalOrder
 				//Do the same for the currentBest
 				//Heuristic 2
 				if count > 0 && ints.HasPrefix(currentBestPath, path[:len(path)-1]) {
-					if currentBestOrbits[choiceElement] >= 0 {
+					if equivalentToLaterInCell(op, currentBestOrbits, choicePosition, space) {
 						skipDeage = true
 						continue jLoop
 					}
@@ -789,6 +788,25 @@ func CanonicalIsomorphAllocated(n, m int, neighbours [][]int, op *CanonicalOrder
 		//End of stepping
 		worse = equitableRefinementProcedure(neighbours, op, dws, nbs, space, timesSeen, maxCell, numberOfMax, currentBest, firstLeaf, options)
 	}
+}
+
+//equivalentToLaterInCell reports whether the element at position pos is in the same orbit as an element at a later position of the same cell.
+//The later positions of the cell have already been handled by the search, so such an element can be skipped.
+func equivalentToLaterInCell(op *CanonicalOrderedPartition, orbits disjoint.Set, pos int, buf []int) bool {
+	cellEnd := 0
+	for _, d := range op.binDividers {
+		if d > pos {
+			cellEnd = d
+			break
+		}
+	}
+	rep := orbits.FindBuffered(op.order[pos], buf)
+	for q := pos + 1; q < cellEnd; q++ {
+		if orbits.FindBuffered(op.order[q], buf) == rep {
+			return true
+		}
+	}
+	return false
 }
 
 //Below are various helper functions.
